@@ -341,6 +341,36 @@ def worker(shard):
                     continue
                 check_valid(mido, type_, {name: text_of(n, cls)}, acc,
                             via_file=(n < 200000))
+        # text the charset in force cannot encode: refusing (ValueError) is
+        # fine, anything returned must still be bytes that decode back
+        for wide in ('\u20ac', 'a\u20ac', '\u0100', 'x' * 300 + '\u0101',
+                     '\u4e2d' + 'y' * 130, '\xff\u0100\xff', '\U0001f3b5',
+                     'abc\ud800'):
+            acc.evals += 1
+            acc.nontrivial += 1
+            case = {'kind': 'wide', 'type': type_, 'text': ascii(wide)}
+            try:
+                m = mido.MetaMessage(type_, **{name: wide})
+            except (ValueError, TypeError):
+                continue
+            try:
+                b = m.bytes()
+            except ValueError:
+                continue
+            except Exception as e:
+                acc.violation(f'wide-text/raises/{type(e).__name__}',
+                              f'MetaMessage({type_!r}, {name}={wide!a}).bytes() '
+                              f'raised {e!r}', case)
+                continue
+            try:
+                ok = (all(type(x) is int and 0 <= x <= 255 for x in b)
+                      and vars(mido.MetaMessage.from_bytes(list(b))) == vars(m))
+            except Exception as e:
+                ok = False
+            if not ok:
+                acc.violation('wide-text/not-bytes-or-no-round-trip',
+                              f'MetaMessage({type_!r}, {name}={wide!a}).bytes() '
+                              f'= {_short(b)}', case)
         acc.sample({'type': type_, 'text_lengths': list(lengths)}, cap=1)
     elif kind == 'data':
         lengths = shard[1]
@@ -468,6 +498,11 @@ def check_case(case):
             ref_attrs['data'] = tuple(ref_attrs['data'])
         check_valid(mido, case['type'], ref_attrs, acc, t=case['time'],
                     input_attrs=attrs)
+    else:
+        # probes that live inside a shard: re-run the shard
+        for sh in ([('text', case['type'], (0, 1))] if case.get('type')
+                   in rm.TEXT_TYPES else [('bytes255',), ('invalid',)]):
+            acc = worker(sh)
     return [(k, v[0][1]) for k, v in acc.viol.items()]
 
 
